@@ -144,7 +144,7 @@ theorem callOutcome_signal {σ : Res} (h : σ.isSignal = true) : callOutcome σ 
 theorem instructionFromVal_key (cfg : Val) (key : String) (original : Val) (c : CofCfg)
     (h : instructionFromVal cfg key original = .ok c) : c.key = key ∧ c.original = original := by
   unfold instructionFromVal at h
-  simp only [] at h
+  try simp only [] at h
   repeat' split at h
   all_goals first
     | (cases h; done)
